@@ -259,6 +259,8 @@ struct Node {
     uint64_t tick_gen = 0;
     bool hidden = false;     // twin: not attached to the LAN
     int twin = -1;           // index of current twin node
+    bool twin_full = false;  // the twin runs the same (Darwin) flow and its periodic Hellos are compared too
+    uint64_t last_periodic_ms = 0; // virtual time of this node's last periodic Hello (0 = none)
     int twin_of = -1;
     uint32_t dyn_failmask = 0;
     bool usable = true;
@@ -345,7 +347,7 @@ struct World {
     void schedule_tick(int node);
     void pump(uint64_t until);
     void after_reset_twin(int node);
-    int make_node(const NodeCfg &c, bool hidden);
+    int make_node(const NodeCfg &c, bool hidden, const Attr *same_interface_as = nullptr);
     void destroy_node(int idx);
     void at(uint64_t t, std::function<void()> fn);
     void exec_api(int i, const Op &op);
